@@ -340,6 +340,21 @@ func c10Sweep(f func(b []byte, p int) interface{}, v []byte, p int, mode string)
 			}
 			put(w)
 		}
+	case "smallint":
+		// every 4-aligned 32-bit word of the first 400 bytes gets the small values 0..9 and all-ones: enumeration fields
+		// indexing a name table (state, wal_level, ...), counts and versions sit there (seeded change C10-7: wal_level 3)
+		x := append([]byte(nil), v...)
+		for off := 0; off+4 <= len(x) && off < 400; off += 4 {
+			var old [4]byte
+			copy(old[:], x[off:off+4])
+			for _, val := range []uint32{0, 1, 2, 3, 4, 5, 6, 7, 8, 9, 0xFFFFFFFF} {
+				x[off], x[off+1], x[off+2], x[off+3] = byte(val), byte(val>>8), byte(val>>16), byte(val>>24)
+				if bad := try(x, fmt.Sprintf("u32-at-%d-set-to-%d", off, val)); bad != "" {
+					return bad
+				}
+			}
+			copy(x[off:off+4], old[:])
+		}
 	case "flip":
 		x := append([]byte(nil), v...)
 		for i := range x {
@@ -464,6 +479,32 @@ func init() {
 			return "ok"
 		}
 		return "page-locality-violated"
+	})
+	// functions that report on ONE page must not look at what follows it in the buffer: the result on data (>= one page)
+	// equals the result on its first 8192 bytes (seeded change C10-9: ParseBlockInfo's empty-page test scanned the whole buffer)
+	register("FirstPageOnly", func(a []string) string {
+		data := unhex(a[1])
+		if len(data) < 8192 {
+			return "ok"
+		}
+		p, _ := strconv.Atoi(a[2])
+		var f func(b []byte) interface{}
+		switch a[0] {
+		case "ParseBlockInfo":
+			f = func(b []byte) interface{} { return pgdump.ParseBlockInfo(b, uint32(p)) }
+		case "VerifyPageChecksum":
+			f = func(b []byte) interface{} { return pgdump.VerifyPageChecksum(b, uint32(p)) }
+		case "detectIndexType":
+			f = func(b []byte) interface{} { return pgdump.VerifDetectIndexType(b) }
+		default:
+			return "harness-unknown-entry"
+		}
+		whole := append([]byte(nil), data...)
+		first := append(make([]byte, 0, 8192), data[:8192]...)
+		if deepStr(f(whole)) != deepStr(f(first)) {
+			return "result-for-the-first-page-depends-on-later-bytes"
+		}
+		return "ok"
 	})
 	// overwriting the payload of ONE stored attribute must leave the decoded value of every other column unchanged
 	// (theorem C10_value_local).  args: null bitmap (hex or "nil"), data area, damaged data area, attribute index
